@@ -1516,7 +1516,7 @@ class Real:
 
 
 # =========================================================================== tasks
-PARTS = ('static', 'ops', 'hidden', 'chains', 'confobj', 'orders', 'treeops')
+PARTS = ('static', 'ops', 'hidden', 'chains', 'confobj', 'orders', 'treeops', 'intkinds', 'refused')
 TREEOPS_PER_TASK = 2
 TREE_MODES = ('shared', 'fresh', 'copy')     # how the elementary objects of the formula with catalogs are held
 # clauses about the state of the real object in a configuration (however it was reached)
@@ -1589,6 +1589,16 @@ def tasks(tier, seed):
     # 'names': the same structures with every shape of names; 'numbers': plain numbers handed over as numbers of numpy
     t += names_tasks(tier, seed)
     t += numbers_tasks(tier, seed, sts)
+    # 'intkinds': steps of the operators / indices of the selection given as every kind of integer; 'refused': invalid
+    # requests from every configuration (the object stays inside the product)
+    for st in sts:
+        sp = RefSpace(st)
+        ids = sp.all_ids()
+        per = 1 if len(sp.names) >= 3 else 2
+        for i in range(0, len(ids), per):
+            t.append(dict(part='intkinds', st=st['name'], seed=seed, tier=tier, starts=ids[i:i + per]))
+    for st in sts:
+        t.append(dict(part='refused', st=st['name'], seed=seed, tier=tier))
     return t
 
 
@@ -1799,6 +1809,10 @@ def run_task(task, _raw=False):
                 _orders(task, st, space, rec)
             elif task['part'] == 'treeops':
                 _treeops(task, st, space, rec)
+            elif task['part'] == 'intkinds':
+                _intkinds(task, st, space, rec)
+            elif task['part'] == 'refused':
+                _refused(task, st, space, rec)
         except Exception as e:
             # every input of this driver is valid: an exception raised by library code is an observed outcome
             if not library_raised(e):
@@ -2959,6 +2973,396 @@ def _grab_lib(fn, rec):
         if isinstance(e, RuntimeError):
             rec.retire = True
         return _Failed(e)
+
+
+# --------------------------------------------------------------------------- part 'intkinds'
+# kinds of integers a step / an index is given as: an integer is an integer whatever its type (numbers drawn with a numpy
+# generator, elements of numpy.arange, sizes of arrays, members of an IntEnum, booleans); the reference model sees int(value)
+INT_KINDS = ('int64', 'int32', 'intp', 'int16', 'int8', 'intc', 'longlong', 'arange-element',
+             'uint8', 'uint16', 'uint32', 'uint64', 'int-subclass', 'bool')
+
+
+class _IntSub(int):
+    """A subclass of int (as the members of an IntEnum are)."""
+    __slots__ = ()
+
+
+def int_group(kind):
+    if kind in ('int-subclass', 'bool'):
+        return 'python-int-subclass'
+    return 'numpy-unsigned-integer' if kind.startswith('uint') else 'numpy-signed-integer'
+
+
+def as_int_kind(kind, v):
+    """The integer v as an object of that kind (None: v is not a value of that kind)."""
+    if kind == 'int':
+        return int(v)
+    if kind == 'bool':
+        return bool(v) if v in (0, 1) else None
+    if kind == 'int-subclass':
+        return _IntSub(v)
+    import numpy as np
+    if kind == 'arange-element':
+        out = np.arange(v, v + 1)[0]
+    else:
+        tp = getattr(np, kind)
+        info = np.iinfo(tp)
+        if not info.min <= v <= info.max:
+            return None
+        out = tp(v)
+    if int(out) != v or not isinstance(out, np.integer):
+        raise RuntimeError(f'alphabet error: {v!r} as {kind} is {out!r}')
+    return out
+
+
+def _intkinds(task, st, space, rec):
+    """Every operator (through prepare_operators and through the method behind it) x step alphabet x kind of integer the
+    step is given as, from every configuration; increase-then-decrease with such steps; every selection by index
+    (select_expression, CentralController.set_controller, Controller.set_index) x kind of integer, followed by operators on
+    the Configuration object the library makes in that state.  The reference model sees int(step) / int(index)."""
+    import operator as _operator
+    import warnings
+    from biogeme.configuration import Configuration
+
+    seed = task['seed']
+    real = Real(st, space, seed)
+    hand = Hand(st, space, seed)
+    expr = real.expr
+    expr.set_central_controller()
+    cc = expr.central_controller
+    ops = cc.prepare_operators()
+    ids = space.all_ids()
+    idset = set(ids)
+    kinds = tuple(task.get('kinds') or INT_KINDS)
+    case = {k: v for k, v in task.items() if k != 'fresh'}
+    deep_seen, text_seen = set(), set()
+    napp = 0
+
+    def kvio(role, kind):
+        def vio(clause, what, expected=None, observed=None, witness=None):
+            # the handling of a kind of integer does not depend on the formula: the key names the role and the kind's family
+            key = f'C16|{clause}|{role}-given-as-{int_group(kind)}'
+            rec.violation(key, f'[{st["name"]}, seed {seed}; {role} given as {kind}] {what}', dict(case, key=key),
+                          expected=expected, observed=observed)
+        return vio
+
+    def level_for(kind, cid):
+        if (int_group(kind), cid) not in deep_seen:
+            deep_seen.add((int_group(kind), cid))
+            return 2
+        if (kind, cid) not in text_seen:
+            text_seen.add((kind, cid))
+            return 1
+        return 0
+
+    def method_call(desc, conf, k):
+        if desc[0] == 'inc':
+            return cc.increased_controller(desc[1], conf, k)
+        if desc[0] == 'dec':
+            return cc.decreased_controller(controller_name=desc[1], current_config=conf, step=k)
+        if desc[0] == 'pair':
+            return cc.two_controllers(desc[1], desc[2], desc[3], conf, k)
+        return cc.modify_random_controllers(desc[1], conf, k)
+
+    def integral(v):
+        try:
+            _operator.index(v)
+            return True
+        except TypeError:
+            return False
+
+    with warnings.catch_warnings():
+        warnings.simplefilter('ignore')      # numpy announces an overflow of a scalar with a RuntimeWarning; the RESULT is judged
+        for cid in task['starts']:
+            choice = space.parse(cid)
+            # ---- A. the operators ---------------------------------------------------------------------------------------
+            for opname in sorted(ops):
+                try:
+                    desc = space.op_desc(opname)
+                except KeyError:
+                    continue                     # the menu of operators is checked by the part 'ops'
+                okind = _op_kind(desc)
+                steps = space.steps_for(desc) if desc[0] != 'several' else sorted({0, 1, 2, len(space.names) + 1})
+                for step in steps:
+                    for kind in kinds:
+                        k = as_int_kind(kind, step)
+                        if k is None:
+                            rec.count('intkinds_value_not_of_that_kind')
+                            continue
+                        vio = kvio('step', kind)
+                        for entry in ('operator', 'method'):
+                            def run():
+                                arg = Configuration.from_string(cid)
+                                new, nsteps = ops[opname](arg, k) if entry == 'operator' else method_call(desc, arg, k)
+                                return new.get_string_id(), nsteps, arg.get_string_id(), real.cheap_state()
+
+                            for picked, tape, res in all_answers(run):
+                                rec.transition()
+                                napp += 1
+                                ckey = ('intstep', st['name'], cid, opname, step, kind, entry, tape)
+                                if isinstance(res, Raised):
+                                    rec.case(ckey, (cid, opname, step, kind, entry, tape, res.text), outcome=('intstep', 'raised'))
+                                    vio('operator-raises-on-a-valid-configuration',
+                                        f'{opname} ({entry}) ({cid!r}, step {k!r}, random answer {picked}) raised {res.text}; with the '
+                                        f'step {step} it gives {[space.cid(c) for c in space.apply(choice, desc, step, picked)]}',
+                                        'a configuration', res.text)
+                                    continue
+                                new_id, nsteps, arg_after, (cur, sel) = res
+                                accept = [space.cid(c) for c in space.apply(choice, desc, step, picked)]
+                                rec.case(ckey if new_id != cid else None, (cid, opname, step, kind, entry, tape, new_id, int(nsteps) if integral(nsteps) else repr(nsteps)),
+                                         outcome=('intstep', okind, new_id in accept))
+                                if new_id not in idset:
+                                    vio('operator-leaves-the-product', f'{opname} ({entry}) ({cid!r}, step {k!r}, answer {picked}) = {new_id!r}',
+                                        sorted(idset), new_id)
+                                    continue
+                                rec.state((st['name'], new_id))
+                                if new_id not in accept:
+                                    vio('operator-result-differs-from-model',
+                                        f'{opname} ({entry}) ({cid!r}, step {k!r}, random answer {picked}) = {new_id!r}; reference model (and the '
+                                        f'same call with the step {step}) {accept}', accept, new_id)
+                                    continue
+                                if arg_after != cid:
+                                    vio('operator-alters-its-argument', f'{opname} changed its argument {cid!r} into {arg_after!r}', cid, arg_after)
+                                if not integral(nsteps):
+                                    vio('operator-result-differs-from-model', f'{opname} reports {nsteps!r} modifications', 'an integer', repr(nsteps))
+                                if cur != new_id:
+                                    vio('object-state-differs-from-returned-configuration', f'after {opname}({cid!r}, {k!r}): object in {cur!r}, '
+                                        f'returned {new_id!r}', new_id, cur)
+                                else:
+                                    real.check_state(new_id, hand, rec, vio, level_for(kind, new_id))
+            # ---- B. increase then decrease (and decrease then increase) by the same step of that kind -----------------------
+            for c in space.names:
+                s = len(space.ctrl[c])
+                for step in sorted({0, 1, 2, 3, s - 1, s, s + 1, 2 * s + 1}):
+                    for kind in kinds:
+                        k = as_int_kind(kind, step)
+                        if k is None:
+                            continue
+                        vio = kvio('step', kind)
+                        for first, second, sign in ((f'Increase {c}', f'Decrease {c}', 1), (f'Decrease {c}', f'Increase {c}', -1)):
+                            if first not in ops or second not in ops:
+                                continue
+                            try:
+                                mid, _ = ops[first](Configuration.from_string(cid), k)
+                                back, _ = ops[second](mid, k)
+                            except Exception as e:
+                                if not library_raised(e):
+                                    raise
+                                rec.case(('intinv', st['name'], cid, first, step, kind), (cid, first, step, kind, type(e).__name__),
+                                         outcome=('intinv', 'raised'))
+                                vio('operator-raises-on-a-valid-configuration', f'{second}({first}({cid!r}, {k!r}), {k!r}) raised '
+                                    f'{type(e).__name__}: {e}', cid, type(e).__name__)
+                                continue
+                            rec.transition(2)
+                            mid_id, back_id = mid.get_string_id(), back.get_string_id()
+                            want_mid = space.cid(space.move(choice, c, sign * step))
+                            rec.case(('intinv', st['name'], cid, first, step, kind) if want_mid != cid else None,
+                                     (cid, first, step, kind, mid_id, back_id), outcome=('intinv', back_id == cid))
+                            if mid_id != want_mid:
+                                # the single application is wrong: the same root cause as (and reported like) part A
+                                vio('operator-result-differs-from-model', f'{first}({cid!r}, {k!r}) = {mid_id!r}; reference model {want_mid!r}',
+                                    want_mid, mid_id)
+                            elif back_id != cid:
+                                # mid is right: either the second application is wrong by itself (root cause as in part A) ...
+                                alone = ops[second](Configuration.from_string(mid_id), k)[0].get_string_id()
+                                if alone != cid:
+                                    vio('operator-result-differs-from-model', f'{second}({mid_id!r}, {k!r}) = {alone!r}; reference model {cid!r}',
+                                        cid, alone)
+                                else:      # ... or only when it is given the object made by the first one
+                                    vio('increase-then-decrease-is-not-identity', f'{second}({first}({cid!r}, {k!r}), {k!r}) = {back_id!r} '
+                                        f'via {mid_id!r}', cid, back_id)
+                            elif back_id in idset:
+                                real.check_state(back_id, hand, rec, vio, 0)
+            # ---- C. selection by index ---------------------------------------------------------------------------------------
+            for c in space.names:
+                ctrl_obj = cc.dict_of_controllers.get(c)
+                size = len(space.ctrl[c])
+                for idx in list(range(size)) + [-1, size, size + 7]:
+                    valid = 0 <= idx < size
+                    for kind in kinds:
+                        k = as_int_kind(kind, idx)
+                        if k is None:
+                            continue
+                        vio = kvio('index', kind)
+                        for entry in ('select_expression', 'set_controller', 'set_index'):
+                            if entry == 'set_index' and ctrl_obj is None:
+                                continue                 # the controllers are compared with the description by the part 'static'
+                            expr.configure_catalogs(Configuration.from_string(cid))
+                            try:
+                                if entry == 'select_expression':
+                                    expr.select_expression(c, k)
+                                elif entry == 'set_controller':
+                                    cc.set_controller(c, k)
+                                else:
+                                    ctrl_obj.set_index(k)
+                                raised = None
+                            except Exception as e:
+                                if not library_raised(e):
+                                    raise
+                                raised = f'{type(e).__name__}: {e}'
+                            rec.transition()
+                            ckey = ('intidx', st['name'], cid, c, idx, kind, entry)
+                            if not valid:
+                                # an invalid request: refused, the object as it was (as for Python's int in the part 'static')
+                                rec.case(None, (cid, c, idx, kind, entry, raised is not None), outcome=('intidx', 'out-of-range', raised is not None))
+                                if raised is None:
+                                    vio('out-of-range-index-accepted', f'in {cid!r}: {entry}({c!r}, {k!r}) accepted; the controller has '
+                                        f'{size} selections', 'refused', 'accepted')
+                                real.check_state(cid, hand, rec, vio, 0)
+                                continue
+                            want = space.cid(dict(choice, **{c: idx}))
+                            if raised is not None:
+                                rec.case(ckey, (cid, c, idx, kind, entry, raised), outcome=('intidx', 'raised'))
+                                vio('valid-index-refused', f'in {cid!r}: {entry}({c!r}, {k!r}) raised {raised}; with the index {idx} it selects '
+                                    f'{want!r}', want, raised)
+                                continue
+                            canon = real.check_state(want, hand, rec, vio, level_for(kind, want))
+                            rec.state((st['name'], want))
+                            rec.case(ckey if want != cid else None, (cid, c, idx, kind, entry, canon), outcome=('intidx', st['name'], want))
+                            # the history goes on: the Configuration object the library makes in that state, and operators on it
+                            conf = expr.current_configuration()
+                            fresh = Configuration.from_string(want)
+                            if not (conf == fresh and fresh == conf and hash(conf) == hash(fresh) and conf.get_string_id() == want):
+                                vio('equal-configurations-compare-or-hash-unequal', f'in {cid!r} after {entry}({c!r}, {k!r}): '
+                                    f'current_configuration() = {conf.get_string_id()!r} is not the configuration {want!r}', want, conf.get_string_id())
+                                continue
+                            if entry != 'select_expression':
+                                continue
+                            for c2 in space.names:
+                                for opn, sign in ((f'Increase {c2}', 1), (f'Decrease {c2}', -1)):
+                                    if opn not in ops:
+                                        continue
+                                    for j2, k2 in enumerate((1, as_int_kind(kind, 1))):
+                                        expr.configure_catalogs(Configuration.from_string(cid))
+                                        expr.select_expression(c, k)          # the state the object is given from
+                                        try:
+                                            got = ops[opn](expr.current_configuration(), k2)[0].get_string_id()
+                                        except Exception as e:
+                                            if not library_raised(e):
+                                                raise
+                                            got = f'{type(e).__name__}: {e}'
+                                        rec.transition()
+                                        wnt = space.cid(space.move(space.parse(want), c2, sign))
+                                        rec.case(None, (cid, c, idx, kind, opn, repr(k2), got), outcome=('intidx-op', got == wnt))
+                                        if got != wnt:
+                                            # a step of that kind: the root cause (and the key) of part A
+                                            (vio if j2 == 0 else kvio('step', kind))(
+                                                'operator-result-differs-from-model', f'in {cid!r}: select_expression({c!r}, {k!r}) ; '
+                                                f'{opn}(current_configuration(), {k2!r}) = {got!r}; reference model {wnt!r}', wnt, got)
+    rec.sample(dict(part='intkinds', structure=st['name'], starts=task['starts'], kinds=list(kinds), operator_applications=napp))
+
+
+# --------------------------------------------------------------------------- part 'refused'
+def _refused(task, st, space, rec):
+    """Invalid requests (a configuration naming an unknown selection / an unknown controller / lacking a controller, an
+    operator given such a configuration, an operator method given an unknown controller or direction) with the object in
+    EVERY configuration x EVERY configuration the request is derived from.  The statement says nothing about what such a
+    request does (refused or not, applied in part or not - both are counted): only that the object stays INSIDE the product -
+    afterwards it is in one configuration of the product, every catalog on the member of its controller, the formula that
+    of the hand-written one - and that the operators go on from there as the reference model says."""
+    from biogeme.configuration import Configuration
+
+    seed = task['seed']
+    real = Real(st, space, seed)
+    hand = Hand(st, space, seed)
+    expr = real.expr
+    expr.set_central_controller()
+    cc = expr.central_controller
+    ops = cc.prepare_operators()
+    ids = space.all_ids()
+    idset = set(ids)
+    case = {k: v for k, v in task.items() if k != 'fresh'}
+    names = space.names
+    all_sel = sorted({s_ for v in space.ctrl.values() for s_ in v})
+    nreq = 0
+
+    def rvio_for(request):
+        def vio(clause, what, expected=None, observed=None, witness=None):
+            key = f'C16|{clause}|after-invalid-request:{request}'
+            rec.violation(key, f'[{st["name"]}, seed {seed}] {what}', dict(case, key=key), expected=expected, observed=observed)
+        return vio
+
+    def bad_configurations(choice):
+        """(label, identifier) of the invalid configurations derived from one configuration."""
+        pairs = [(c, space.ctrl[c][choice[c]]) for c in names]
+        out = []
+        for i, (c, s_) in enumerate(pairs):
+            foreign = [x for x in all_sel if x not in space.ctrl[c]]
+            for bad in ['zzz~'] + foreign[:1]:
+                out.append(('unknown-selection', pairs[:i] + [(c, bad)] + pairs[i + 1:]))
+            if len(pairs) >= 2:
+                out.append(('controller-missing', pairs[:i] + pairs[i + 1:]))
+        for extra in ('!nope', '~nope'):
+            out.append(('unknown-controller', pairs + [(extra, all_sel[0])]))
+        return [(lab, SEP.join(f'{c}{SELSEP}{s_}' for c, s_ in p)) for lab, p in out]
+
+    def requests(t_choice):
+        t_id = space.cid(t_choice)
+        for lab, bad_id in bad_configurations(t_choice):
+            yield f'configuration-with-{lab}', f'configure_catalogs({bad_id!r})', \
+                lambda b=bad_id: expr.configure_catalogs(Configuration.from_string(b))
+            yield f'configuration-with-{lab}', f'set_configuration_from_id({bad_id!r})', \
+                lambda b=bad_id: cc.set_configuration_from_id(b)
+            for opn in (f'Increase {names[0]}', f'Decrease {names[-1]}'):
+                if opn in ops:
+                    yield f'operator-given-a-configuration-with-{lab}', f'{opn}({bad_id!r}, 1)', \
+                        lambda b=bad_id, o=opn: ops[o](Configuration.from_string(b), 1)
+        yield 'operator-on-an-unknown-controller', f'increased_controller("nope~", {t_id!r}, 1)', \
+            lambda: cc.increased_controller('nope~', Configuration.from_string(t_id), 1)
+        yield 'operator-on-an-unknown-controller', f'decreased_controller("nope~", {t_id!r}, 2)', \
+            lambda: cc.decreased_controller('nope~', Configuration.from_string(t_id), 2)
+        yield 'operator-on-an-unknown-controller', f'set_controller("nope~", 0)', lambda: cc.set_controller('nope~', 0)
+        if len(names) >= 1:
+            yield 'operator-on-an-unknown-controller', f'two_controllers({names[0]!r}, "nope~", "NE", {t_id!r}, 1)', \
+                lambda: cc.two_controllers(names[0], 'nope~', 'NE', Configuration.from_string(t_id), 1)
+            yield 'operator-on-an-unknown-controller', f'two_controllers("nope~", {names[-1]!r}, "SW", {t_id!r}, 1)', \
+                lambda: cc.two_controllers('nope~', names[-1], 'SW', Configuration.from_string(t_id), 1)
+        if len(names) >= 2:
+            yield 'operator-with-an-unknown-direction', f'two_controllers({names[0]!r}, {names[1]!r}, "N", {t_id!r}, 1)', \
+                lambda: cc.two_controllers(names[0], names[1], 'N', Configuration.from_string(t_id), 1)
+
+    for s_id in ids:
+        for t_choice in space.configs:
+            for request, text, call in requests(t_choice):
+                vio = rvio_for(request)
+                expr.configure_catalogs(Configuration.from_string(s_id))
+                try:
+                    call()
+                    refused = None
+                except Exception as e:
+                    if not library_raised(e):
+                        raise
+                    refused = type(e).__name__
+                nreq += 1
+                rec.transition()
+                cur, _ = real.cheap_state()
+                rec.count('invalid_request_refused' if refused else 'invalid_request_accepted')
+                if cur != s_id:
+                    rec.count('invalid_request_moved_the_selection')
+                rec.case(('refused', st['name'], s_id, text) if cur != s_id else None, (s_id, text, refused, cur),
+                         outcome=('refused', request, refused, cur == s_id))
+                if cur not in idset:
+                    vio('invalid-request-leaves-the-product', f'object in {s_id!r}: after {text} ({"refused: " + refused if refused else "accepted"}) '
+                        f'current_configuration() = {cur!r}, not a configuration of the product', sorted(idset), cur)
+                    continue
+                rec.state((st['name'], cur))
+                real.check_state(cur, hand, rec, lambda clause, what, e=None, o=None, witness=None:
+                                 vio(clause, f'object in {s_id!r}: after {text} ({"refused: " + refused if refused else "accepted"}): {what}', e, o), 1)
+                # the history goes on from there
+                opn = f'Increase {names[-1]}'
+                if opn in ops:
+                    try:
+                        got = ops[opn](expr.current_configuration(), 1)[0].get_string_id()
+                    except Exception as e:
+                        if not library_raised(e):
+                            raise
+                        got = f'{type(e).__name__}: {e}'
+                    wnt = space.cid(space.move(space.parse(cur), names[-1], 1))
+                    rec.transition()
+                    if got != wnt:
+                        vio('operator-result-differs-from-model', f'object in {s_id!r}: {text} ; {opn}(current_configuration(), 1) = {got!r}; '
+                            f'reference model from {cur!r}: {wnt!r}', wnt, got)
+    rec.sample(dict(part='refused', structure=st['name'], requests=nreq, counts={k: v for k, v in rec.counts.items() if k.startswith('invalid_request')}))
 
 
 def on_abort(task, info):
